@@ -34,7 +34,6 @@ func newNamespace(namespace string) (sp *Namespace)
 // a namespace is dropped only when it holds neither a traffic gate nor a pipeline any more
 pred anyIn(m int) := exists t, k int :: smHas[m][t][k]
 func (tc *TrafficController) _cleanSpace(namespace string)
-  flag frame=unchecked
   requires tc != nil && tc.namespaces != nil && (namespace in tc.namespaces) && tc.namespaces[namespace] != nil
   modifies entries(tc.namespaces)
   ensures a-namespace-that-still-holds-a-traffic-gate-is-kept: old(anyIn(addr(tc.namespaces[namespace].trafficGates))) ==> (namespace in tc.namespaces) && tc.namespaces[namespace] == old(tc.namespaces[namespace])
@@ -45,10 +44,9 @@ func (tc *TrafficController) _cleanSpace(namespace string)
 // ApplyPipeline: create, update or leave alone exactly one pipeline; nothing else changes
 func (tc *TrafficController) ApplyPipeline(namespace string, entity *supervisor.ObjectEntity) (res *supervisor.ObjectEntity, err error)
   flag allocates
-  flag frame=unchecked
   requires tc != nil && spacesOK(tc) && entity != nil && entity.spec != nil && entity.spec.meta != nil
   requires the-new-entity-is-not-live-anywhere: forall ns, n string :: (ns in tc.namespaces) && pl(tc.namespaces[ns], n) ==> plVal(tc.namespaces[ns], n) != ref(entity)
-  modifies smHas, smVal, smTyp, inits, inherits, inhPrev, closes, gName, gSpace, gHad, gPrev, gPublished, gPublishedBuilt, gBase, entries(tc.namespaces)
+  modifies smHas, smVal, smTyp, inits, inherits, inhPrev, closes, gLifeSpec, gLifePrev, allof("supervisor.ObjectEntity.generation"), gName, gSpace, gHad, gPrev, gPublished, gPublishedBuilt, gBase, entries(tc.namespaces)
   ensures empty-namespace-is-refused-and-changes-nothing: namespace == "" ==> err != nil && smHas == old(smHas) && smVal == old(smVal) && inits == old(inits) && inherits == old(inherits) && closes == old(closes)
   ensures unchanged-spec-is-a-no-op: err == nil && gHad && ptr(gPrev, "*supervisor.ObjectEntity").spec.sid == entity.spec.sid ==> res == ptr(gPrev, "*supervisor.ObjectEntity") && smHas == old(smHas) && smVal == old(smVal) && inits == old(inits) && inherits == old(inherits) && closes == old(closes)
   ensures a-new-name-is-initialised-once-and-then-published: err == nil && !gHad ==> res == entity && inits == old(store(inits, ref(entity), inits[ref(entity)] + 1)) && inherits == old(inherits) && pl(ptr(gSpace, "*Namespace"), gName) && plVal(ptr(gSpace, "*Namespace"), gName) == ref(entity)
@@ -68,9 +66,8 @@ func (tc *TrafficController) ApplyPipeline(namespace string, entity *supervisor.
 
 func (tc *TrafficController) DeletePipeline(namespace string, name string) (err error)
   flag allocates
-  flag frame=unchecked
   requires tc != nil && spacesOK(tc)
-  modifies smHas, smVal, smTyp, inits, inherits, inhPrev, closes, gName, gSpace, gHad, gPrev, gPublished, gPublishedBuilt, gBase, entries(tc.namespaces)
+  modifies smHas, smVal, smTyp, inits, inherits, inhPrev, closes, gLifeSpec, gLifePrev, allof("supervisor.ObjectEntity.generation"), gName, gSpace, gHad, gPrev, gPublished, gPublishedBuilt, gBase, entries(tc.namespaces)
   ensures the-registry-stays-well-formed: old(spacesOK(tc) && gatesOK(tc)) ==> spacesOK(tc) && gatesOK(tc)
   ensures missing-namespace-or-name-changes-nothing: err != nil ==> smHas == old(smHas) && closes == old(closes)
   ensures the-pipeline-is-removed-and-closed-exactly-once: let g = gPrev in (err == nil ==> gHad && !pl(ptr(gSpace, "*Namespace"), name) && closes == old(store(closes, g, closes[g] + 1)))
@@ -96,9 +93,8 @@ axiom the-two-maps-of-a-namespace-are-distinct-and-not-shared: forall a, b *Name
 
 func (tc *TrafficController) CreatePipeline(namespace string, entity *supervisor.ObjectEntity) (res *supervisor.ObjectEntity, err error)
   flag allocates
-  flag frame=unchecked
   requires tc != nil && tc.namespaces != nil && (forall ns string :: (ns in tc.namespaces) ==> tc.namespaces[ns] != nil) && entity != nil && entity.spec != nil && entity.spec.meta != nil
-  modifies smHas, smVal, smTyp, inits, inherits, inhPrev, closes, gName, gSpace, gHad, gPrev, gPublished, gPublishedBuilt, gBase, entries(tc.namespaces)
+  modifies smHas, smVal, smTyp, inits, inherits, inhPrev, closes, gLifeSpec, gLifePrev, allof("supervisor.ObjectEntity.generation"), gName, gSpace, gHad, gPrev, gPublished, gPublishedBuilt, gBase, entries(tc.namespaces)
   ensures the-registry-stays-well-formed: old(spacesOK(tc) && gatesOK(tc)) ==> spacesOK(tc) && gatesOK(tc)
   ensures empty-namespace-is-refused-and-changes-nothing: namespace == "" ==> err != nil && smHas == old(smHas) && smVal == old(smVal) && inits == old(inits)
   ensures a-named-namespace-never-refuses: namespace != "" ==> err == nil && res == entity
@@ -116,9 +112,8 @@ func (tc *TrafficController) CreatePipeline(namespace string, entity *supervisor
 
 func (tc *TrafficController) CreateTrafficGate(namespace string, entity *supervisor.ObjectEntity) (res *supervisor.ObjectEntity, err error)
   flag allocates
-  flag frame=unchecked
   requires tc != nil && tc.namespaces != nil && (forall ns string :: (ns in tc.namespaces) ==> tc.namespaces[ns] != nil) && entity != nil && entity.spec != nil && entity.spec.meta != nil
-  modifies smHas, smVal, smTyp, inits, inherits, inhPrev, closes, gName, gSpace, gHad, gPrev, gPublished, gPublishedBuilt, gBase, entries(tc.namespaces)
+  modifies smHas, smVal, smTyp, inits, inherits, inhPrev, closes, gLifeSpec, gLifePrev, allof("supervisor.ObjectEntity.generation"), gName, gSpace, gHad, gPrev, gPublished, gPublishedBuilt, gBase, entries(tc.namespaces)
   ensures the-registry-stays-well-formed: old(spacesOK(tc) && gatesOK(tc)) ==> spacesOK(tc) && gatesOK(tc)
   ensures empty-namespace-is-refused-and-changes-nothing: namespace == "" ==> err != nil && smHas == old(smHas) && smVal == old(smVal) && inits == old(inits)
   ensures a-named-namespace-never-refuses: namespace != "" ==> err == nil && res == entity
@@ -141,9 +136,8 @@ pred gatesOK(tc *TrafficController) := tc.namespaces != nil && (forall ns string
 
 func (tc *TrafficController) UpdatePipeline(namespace string, entity *supervisor.ObjectEntity) (res *supervisor.ObjectEntity, err error)
   flag allocates
-  flag frame=unchecked
   requires tc != nil && spacesOK(tc) && entity != nil && entity.spec != nil && entity.spec.meta != nil
-  modifies smHas, smVal, smTyp, inits, inherits, inhPrev, closes, gName, gSpace, gHad, gPrev, gPublished, gPublishedBuilt, gBase, entries(tc.namespaces)
+  modifies smHas, smVal, smTyp, inits, inherits, inhPrev, closes, gLifeSpec, gLifePrev, allof("supervisor.ObjectEntity.generation"), gName, gSpace, gHad, gPrev, gPublished, gPublishedBuilt, gBase, entries(tc.namespaces)
   ensures the-registry-stays-well-formed: old(spacesOK(tc) && gatesOK(tc)) ==> spacesOK(tc) && gatesOK(tc)
   ensures a-missing-namespace-or-name-is-refused-and-changes-nothing: err != nil ==> smHas == old(smHas) && smVal == old(smVal) && inits == old(inits) && inherits == old(inherits) && closes == old(closes)
   ensures refused-exactly-when-the-name-is-not-live: (err != nil) <==> !((namespace in tc.namespaces) && old(pl(tc.namespaces[namespace], entity.spec.meta.Name)))
@@ -160,9 +154,8 @@ func (tc *TrafficController) UpdatePipeline(namespace string, entity *supervisor
 
 func (tc *TrafficController) UpdateTrafficGate(namespace string, entity *supervisor.ObjectEntity) (res *supervisor.ObjectEntity, err error)
   flag allocates
-  flag frame=unchecked
   requires tc != nil && gatesOK(tc) && entity != nil && entity.spec != nil && entity.spec.meta != nil
-  modifies smHas, smVal, smTyp, inits, inherits, inhPrev, closes, gName, gSpace, gHad, gPrev, gPublished, gPublishedBuilt, gBase, entries(tc.namespaces)
+  modifies smHas, smVal, smTyp, inits, inherits, inhPrev, closes, gLifeSpec, gLifePrev, allof("supervisor.ObjectEntity.generation"), gName, gSpace, gHad, gPrev, gPublished, gPublishedBuilt, gBase, entries(tc.namespaces)
   ensures the-registry-stays-well-formed: old(spacesOK(tc) && gatesOK(tc)) ==> spacesOK(tc) && gatesOK(tc)
   ensures a-missing-namespace-or-name-is-refused-and-changes-nothing: err != nil ==> smHas == old(smHas) && smVal == old(smVal) && inits == old(inits) && inherits == old(inherits) && closes == old(closes)
   ensures refused-exactly-when-the-name-is-not-live: (err != nil) <==> !((namespace in tc.namespaces) && old(tg(tc.namespaces[namespace], entity.spec.meta.Name)))
@@ -179,9 +172,8 @@ func (tc *TrafficController) UpdateTrafficGate(namespace string, entity *supervi
 
 func (tc *TrafficController) DeleteTrafficGate(namespace string, name string) (err error)
   flag allocates
-  flag frame=unchecked
   requires tc != nil && gatesOK(tc)
-  modifies smHas, smVal, smTyp, inits, inherits, inhPrev, closes, gName, gSpace, gHad, gPrev, gPublished, gPublishedBuilt, gBase, entries(tc.namespaces)
+  modifies smHas, smVal, smTyp, inits, inherits, inhPrev, closes, gLifeSpec, gLifePrev, allof("supervisor.ObjectEntity.generation"), gName, gSpace, gHad, gPrev, gPublished, gPublishedBuilt, gBase, entries(tc.namespaces)
   ensures the-registry-stays-well-formed: old(spacesOK(tc) && gatesOK(tc)) ==> spacesOK(tc) && gatesOK(tc)
   ensures missing-namespace-or-name-changes-nothing: err != nil ==> smHas == old(smHas) && closes == old(closes)
   ensures refused-exactly-when-the-name-is-not-live: (err != nil) <==> !(old(namespace in tc.namespaces) && old(tg(tc.namespaces[namespace], name)))
